@@ -47,8 +47,8 @@ _CHAIN_SEAMS = ["SimRNG (global numpy stream reseeded per step)", "SimGC (gc dis
                 "gauge schedule (canonicalise/ensure/move_qnidx/compress by 'another holder' between arithmetic steps)"]
 for _pid, _ref in (("C03", "4/C03"), ("C04", "4/C04"), ("C05", "4/C05"), ("C06", "4/C06"), ("C07", "4/C07"), ("C13", "4/C13")):
     register(_pid, f"simlab.profiles.{_pid.lower()}", "exploration",
-             budgets={"quick": dict(runs=640, timeout=120), "thorough": dict(runs=20000, timeout=300)},
-             rule=_CHAIN_RULE, assumptions=COMMON_ASSUMPTIONS, seams=_CHAIN_SEAMS, design_ref=_ref)
+             budgets={"quick": dict(runs=960 if _pid in ("C05", "C06", "C13") else 640, timeout=120), "thorough": dict(runs=20000, timeout=300)},
+             rule=_CHAIN_RULE + (" (C05/C06/C13 also run sessions of the tree world, see C11)" if _pid in ("C05", "C06", "C13") else ""), assumptions=COMMON_ASSUMPTIONS, seams=_CHAIN_SEAMS, design_ref=_ref)
 
 register("C15", "simlab.profiles.c15", "exploration",
          budgets={"quick": dict(runs=1600, timeout=120), "thorough": dict(runs=60000, timeout=300)},
